@@ -15,6 +15,7 @@
   business.)
 -/
 import GridVerse.Lemmas.Atoms
+import GridVerse.Lemmas.Bfs
 import GridVerse.Model.Reward
 import GridVerse.Agree.Actions
 import GridVerse.Agree.Orient
@@ -157,6 +158,66 @@ theorem C12_getting_closer_sp (k : Kind) (closer further : Int) (s : State) (a :
         let c := cmpOptDist (shortestPath s.grid p s.agent.pos) (shortestPath s'.grid p' s'.agent.pos)
         if c < 0 then closer else if c > 0 then further else 0)) := by
   simp [RewAtom.eval, hp, hp']
+
+/-! ### the shortest-path distance really is the graph distance (`dijkstra`)
+
+`Walk g.freeCell src p n`: `p` is reached from `src` in `n` unit steps, each onto an in-grid cell that
+does not block movement (the source is exempt, as `dijkstra` marks it visited whatever it holds).
+`IsDist … d`: such a walk of length `d` exists and none shorter. -/
+
+theorem C12_shortest_path_some (g : Grid) (src tgt : Pos) (d : Nat) :
+    shortestPath g src tgt = some d ↔ IsDist g.freeCell src tgt d :=
+  shortestPath_some_iff g src tgt d
+
+/-- `inf` exactly when the target cannot be reached at all -/
+theorem C12_shortest_path_none (g : Grid) (src tgt : Pos) :
+    shortestPath g src tgt = none ↔ ∀ n, ¬ Walk g.freeCell src tgt n :=
+  shortestPath_none_iff g src tgt
+
+/-- the shortest-path shaping reward has the sign of the change of the true graph distance: with
+finite distances `d` before and `d'` after, it pays `closer` iff `d' < d`, `further` iff `d < d'`,
+nothing when equal. -/
+theorem C12_getting_closer_sp_sign (k : Kind) (closer further : Int) (s : State) (a : Action) (s' : State)
+    (p p' : Pos) (hp : uniquePos s.grid k = .ok p) (hp' : uniquePos s'.grid k = .ok p') (d d' : Nat)
+    (hd : IsDist s.grid.freeCell p s.agent.pos d) (hd' : IsDist s'.grid.freeCell p' s'.agent.pos d') :
+    (RewAtom.gettingCloserSP k closer further).eval s a s' =
+      .ok (.int (if d' < d then closer else if d < d' then further else 0)) := by
+  rw [C12_getting_closer_sp k closer further s a s' p p' hp hp']
+  rw [(shortestPath_some_iff _ _ _ _).mpr hd, (shortestPath_some_iff _ _ _ _).mpr hd']
+  simp only [cmpOptDist]
+  congr 2
+  split <;> split <;> simp <;> omega
+
+/-- … and becoming reachable counts as closer, becoming unreachable as further -/
+theorem C12_getting_closer_sp_inf (k : Kind) (closer further : Int) (s : State) (a : Action) (s' : State)
+    (p p' : Pos) (hp : uniquePos s.grid k = .ok p) (hp' : uniquePos s'.grid k = .ok p') :
+    ((∀ n, ¬ Walk s.grid.freeCell p s.agent.pos n) → (∃ n, Walk s'.grid.freeCell p' s'.agent.pos n) →
+      (RewAtom.gettingCloserSP k closer further).eval s a s' = .ok (.int closer)) ∧
+    ((∃ n, Walk s.grid.freeCell p s.agent.pos n) → (∀ n, ¬ Walk s'.grid.freeCell p' s'.agent.pos n) →
+      (RewAtom.gettingCloserSP k closer further).eval s a s' = .ok (.int further)) ∧
+    ((∀ n, ¬ Walk s.grid.freeCell p s.agent.pos n) → (∀ n, ¬ Walk s'.grid.freeCell p' s'.agent.pos n) →
+      (RewAtom.gettingCloserSP k closer further).eval s a s' = .ok (.int 0)) := by
+  rw [C12_getting_closer_sp k closer further s a s' p p' hp hp']
+  refine ⟨?_, ?_, ?_⟩
+  · intro h1 ⟨n, h2⟩
+    obtain ⟨d, _, hD⟩ := Walk.exists_isDist n h2
+    rw [(shortestPath_none_iff _ _ _).mpr h1, (shortestPath_some_iff _ _ _ _).mpr hD]
+    simp [cmpOptDist]
+  · intro ⟨n, h1⟩ h2
+    obtain ⟨d, _, hD⟩ := Walk.exists_isDist n h1
+    rw [(shortestPath_none_iff _ _ _).mpr h2, (shortestPath_some_iff _ _ _ _).mpr hD]
+    simp [cmpOptDist]
+  · intro h1 h2
+    rw [(shortestPath_none_iff _ _ _).mpr h1, (shortestPath_none_iff _ _ _).mpr h2]
+    simp [cmpOptDist]
+
+/-- non-vacuity: around a wall the graph distance (4) exceeds the Manhattan distance (2) -/
+example :
+    let g : Grid := ⟨3, 3, [[.floor, .wall, .floor], [.floor, .wall, .floor], [.floor, .floor, .floor]]⟩
+    shortestPath g ⟨1, 0⟩ ⟨1, 2⟩ = some 4 ∧ IsDist g.freeCell ⟨1, 0⟩ ⟨1, 2⟩ 4 := by
+  intro g
+  have h : shortestPath g ⟨1, 0⟩ ⟨1, 2⟩ = some 4 := by decide
+  exact ⟨h, (shortestPath_some_iff _ _ _ _).mp h⟩
 
 /-- `cmpOptDist` is the sign of the change of an `inf`-extended distance -/
 theorem C12_cmpOptDist (x y : Option Nat) :
